@@ -590,6 +590,11 @@ func (t Table) MigrationIndexUp(dropCols map[string]struct{}) []string {
 		for i := range t.Indexes {
 			if t.Indexes[i].Action == MigrateAddAction {
 				strSqls = append(strSqls, t.Indexes[i].migrationUp(t.Name)...)
+			} else if t.Indexes[i].Action == MigrateRenameAction {
+				// like a renamed column, a renamed index of a new table is created under its new name
+				nIdx := t.Indexes[i]
+				nIdx.Action = MigrateAddAction
+				strSqls = append(strSqls, nIdx.migrationUp(t.Name)...)
 			}
 		}
 		return strSqls
